@@ -109,10 +109,11 @@ func (i *itemsValidator) Validate(index int, data interface{}) *Result {
 		}
 
 		validator.SetPath(path)
-		err := validator.Validate(data)
 		if i.Options.recycleValidators {
+			// the child redeems itself, also when it panics: release the slot before the call
 			i.validators[idx] = nil // prevents further (unsafe) usage
 		}
+		err := validator.Validate(data)
 		if err != nil {
 			result.Inc()
 			if err.HasErrors() {
@@ -393,10 +394,11 @@ func (p *HeaderValidator) Validate(data interface{}) *Result {
 			continue
 		}
 
-		err := validator.Validate(data)
 		if p.Options.recycleValidators {
+			// the child redeems itself, also when it panics: release the slot before the call
 			p.validators[idx] = nil // prevents further (unsafe) usage
 		}
+		err := validator.Validate(data)
 		if err != nil {
 			if err.HasErrors() {
 				result.Merge(err)
@@ -585,10 +587,11 @@ func (p *ParamValidator) Validate(data interface{}) *Result {
 			continue
 		}
 
-		err := validator.Validate(data)
 		if p.Options.recycleValidators {
+			// the child redeems itself, also when it panics: release the slot before the call
 			p.validators[idx] = nil // prevents further (unsafe) usage
 		}
+		err := validator.Validate(data)
 		if err != nil {
 			if err.HasErrors() {
 				result.Merge(err)
